@@ -3015,7 +3015,7 @@ def shared_state_mutations(cnode: ast.ClassDef):
     return out
 
 
-def dissolve_local_objects(prog, m, fi) -> list[str]:
+def dissolve_local_objects(prog, m, fi, only=None) -> list[str]:
     """A local of `fi` bound once to a new instance of a small class of the program - plain class or @dataclass, data
     attributes and plain methods only - that is used only through its attributes and methods and never leaves the
     function (not passed on, returned, stored or captured) is the set of its attributes kept in locals: the methods are
@@ -3044,6 +3044,8 @@ def dissolve_local_objects(prog, m, fi) -> list[str]:
                 continue
             ci = prog.resolve_class_expr(m, v.func)
             if ci is None or ci.module is not m or any(c.node is ci.node for c in ([fi.cls] if fi.cls else [])):
+                continue
+            if only is not None and ci.name not in only:
                 continue
             lay = _class_layout(ci.node)
             if lay is None:
